@@ -250,6 +250,13 @@ func tsigVerify(msg []byte, provider TsigProvider, requestMAC string, timersOnly
 	}
 
 	if err := provider.Verify(buf, tsig); err != nil {
+		// A NOTAUTH answer that does not verify - RFC 8945, section 5.3.2: the
+		// answer to a request that failed with BADKEY or BADSIG carries no MAC -
+		// is reported as the refusal it is. One that is signed (BADTIME, section
+		// 5.2.3) verifies like every other message.
+		if len(stripped) > 3 && int(stripped[3]&0xF) == RcodeNotAuth {
+			return ErrAuth
+		}
 		return err
 	}
 
@@ -338,11 +345,6 @@ func stripTsig(msg []byte) ([]byte, *TSIG, error) {
 	}
 	if dh.Arcount == 0 {
 		return nil, nil, ErrNoSig
-	}
-
-	// Rcode, see msg.go Unpack()
-	if int(dh.Bits&0xF) == RcodeNotAuth {
-		return nil, nil, ErrAuth
 	}
 
 	for i := 0; i < int(dh.Qdcount); i++ {
